@@ -29,6 +29,9 @@ pub(crate) fn volt_ok(v: f32) -> bool {
 /// establishes for the field it writes): finite, within 0..5 V.
 pub(crate) fn wf_board(b: &Board) -> bool {
     volt_ok(b.temp) && volt_ok(b.analog_inputs[0]) && volt_ok(b.analog_inputs[1])
+        // DAC voltages are always byte / 100 (or the power-on 0.0): in particular never NaN
+        && b.analog_outputs[0] == b.analog_outputs[0]
+        && b.analog_outputs[1] == b.analog_outputs[1]
 }
 
 /// Field-by-field equality with floats compared by bit pattern (NaN-safe frame conditions).
